@@ -4,12 +4,10 @@ go 1.23
 
 require (
 	github.com/alicebob/sqlittle v0.0.0
+	golang.org/x/sys v0.5.0
 	pgregory.net/rapid v1.3.0
 )
 
-require (
-	golang.org/x/exp v0.0.0-20230224173230-c95f2b4c22f2 // indirect
-	golang.org/x/sys v0.5.0 // indirect
-)
+require golang.org/x/exp v0.0.0-20230224173230-c95f2b4c22f2 // indirect
 
 replace github.com/alicebob/sqlittle => /repo
